@@ -889,18 +889,38 @@ func (c1 floatConst) binaryOp(op ast.OperatorType, c2 constant) (constant, error
 			return boolConst(cmp >= 0), nil
 		}
 	case ast.OperatorAddition:
-		return floatConst{f: bigFloat().Add(n1.f, n2.f)}, nil
+		return makeFloatConst(bigFloat().Add(n1.f, n2.f))
 	case ast.OperatorSubtraction:
-		return floatConst{f: bigFloat().Sub(n1.f, n2.f)}, nil
+		return makeFloatConst(bigFloat().Sub(n1.f, n2.f))
 	case ast.OperatorMultiplication:
-		return floatConst{f: bigFloat().Mul(n1.f, n2.f)}, nil
+		return makeFloatConst(bigFloat().Mul(n1.f, n2.f))
 	case ast.OperatorDivision:
 		if n2.f.Sign() == 0 {
 			return nil, errDivisionByZero
 		}
-		return floatConst{f: bigFloat().Quo(n1.f, n2.f)}, nil
+		return makeFloatConst(bigFloat().Quo(n1.f, n2.f))
 	}
 	return nil, errInvalidOperation
+}
+
+// maxFloatExp bounds the binary exponent of floating-point constants. Without
+// a bound a few lines of squarings reach exponents of billions of bits, an
+// addition of two such constants shifts a mantissa by that many bits, and an
+// overflow to infinity makes a later Inf - Inf panic in the big package.
+const maxFloatExp = 1 << 24
+
+// makeFloatConst returns f as a constant. It returns an error if f is an
+// infinity or its exponent is too large, and zero if it is too small.
+func makeFloatConst(f *big.Float) (constant, error) {
+	if f.IsInf() {
+		return nil, errors.New("constant overflow")
+	}
+	if e := f.MantExp(nil); e > maxFloatExp {
+		return nil, errors.New("constant overflow")
+	} else if e < -maxFloatExp {
+		f = bigFloat()
+	}
+	return floatConst{f: f}, nil
 }
 
 func (c1 floatConst) representedBy(typ reflect.Type) (constant, error) {
@@ -1177,6 +1197,16 @@ func (c1 complexConst) binaryOp(op ast.OperatorType, c2 constant) (constant, err
 	// they are represented as integers.
 	n1 = complexConst{r: fractional(n1.r), i: fractional(n1.i)}
 	n2 = complexConst{r: fractional(n2.r), i: fractional(n2.i)}
+	// bin executes a binary operation on the parts, keeping the first error.
+	var err error
+	bin := func(a constant, op ast.OperatorType, b constant) constant {
+		if err != nil {
+			return nil
+		}
+		var c constant
+		c, err = a.binaryOp(op, b)
+		return c
+	}
 	switch op {
 	case ast.OperatorEqual, ast.OperatorNotEqual:
 		re, _ := n1.r.binaryOp(ast.OperatorEqual, n2.r)
@@ -1191,35 +1221,44 @@ func (c1 complexConst) binaryOp(op ast.OperatorType, c2 constant) (constant, err
 		im, _ := n1.i.binaryOp(op, n2.i)
 		return newComplexConst(re, im), nil
 	case ast.OperatorMultiplication:
-		ac, _ := n1.r.binaryOp(op, n2.r)
-		bd, _ := n1.i.binaryOp(op, n2.i)
-		bc, _ := n1.i.binaryOp(op, n2.r)
-		ad, _ := n1.r.binaryOp(op, n2.i)
+		ac := bin(n1.r, op, n2.r)
+		bd := bin(n1.i, op, n2.i)
+		bc := bin(n1.i, op, n2.r)
+		ad := bin(n1.r, op, n2.i)
 		c := complexConst{}
-		c.r, _ = ac.binaryOp(ast.OperatorSubtraction, bd)
-		c.i, _ = bc.binaryOp(ast.OperatorAddition, ad)
+		c.r = bin(ac, ast.OperatorSubtraction, bd)
+		c.i = bin(bc, ast.OperatorAddition, ad)
+		if err != nil {
+			return nil, err
+		}
 		return c, nil
 	case ast.OperatorDivision:
 		if n2.zero() {
 			return nil, errComplexDivisionByZero
 		}
 		// s = cc + dd
-		cc, _ := n2.r.binaryOp(ast.OperatorMultiplication, n2.r)
-		dd, _ := n2.i.binaryOp(ast.OperatorMultiplication, n2.i)
-		s, _ := cc.binaryOp(ast.OperatorAddition, dd)
+		cc := bin(n2.r, ast.OperatorMultiplication, n2.r)
+		dd := bin(n2.i, ast.OperatorMultiplication, n2.i)
+		s := bin(cc, ast.OperatorAddition, dd)
+		if err != nil {
+			return nil, err
+		}
 		if s.zero() {
 			return nil, errComplexDivisionByZero
 		}
 		// z = (ac+bd)/s + i(bc-ad)/s
-		ac, _ := n1.r.binaryOp(ast.OperatorMultiplication, n2.r)
-		bd, _ := n1.i.binaryOp(ast.OperatorMultiplication, n2.i)
-		bc, _ := n1.i.binaryOp(ast.OperatorMultiplication, n2.r)
-		ad, _ := n1.r.binaryOp(ast.OperatorMultiplication, n2.i)
-		re, _ := ac.binaryOp(ast.OperatorAddition, bd)
-		im, _ := bc.binaryOp(ast.OperatorSubtraction, ad)
+		ac := bin(n1.r, ast.OperatorMultiplication, n2.r)
+		bd := bin(n1.i, ast.OperatorMultiplication, n2.i)
+		bc := bin(n1.i, ast.OperatorMultiplication, n2.r)
+		ad := bin(n1.r, ast.OperatorMultiplication, n2.i)
+		re := bin(ac, ast.OperatorAddition, bd)
+		im := bin(bc, ast.OperatorSubtraction, ad)
 		c := complexConst{}
-		c.r, _ = re.binaryOp(ast.OperatorDivision, s)
-		c.i, _ = im.binaryOp(ast.OperatorDivision, s)
+		c.r = bin(re, ast.OperatorDivision, s)
+		c.i = bin(im, ast.OperatorDivision, s)
+		if err != nil {
+			return nil, err
+		}
 		return c, nil
 	}
 	return nil, errInvalidOperation
@@ -1462,7 +1501,11 @@ func parseBasicLiteral(typ ast.LiteralType, s string) (constant, error) {
 			r, _ := new(big.Rat).SetString(s)
 			return ratConst{r: r}, nil
 		}
-		return floatConst{f: n}, nil
+		c, err := makeFloatConst(n)
+		if err != nil {
+			return nil, fmt.Errorf("constant too large: %s", s)
+		}
+		return c, nil
 	case ast.ImaginaryLiteral:
 		if strings.ContainsAny(s, ".eEpP") {
 			im, err := parseBasicLiteral(ast.FloatLiteral, s[:len(s)-1])
